@@ -247,6 +247,21 @@ pub fn run_case(
         if !case.in_scope {
           continue;
         }
+        // … and with the referrer named by a redirect source that leads to it: lookups and the walk
+        // reach the module from there, so its dependencies resolve from there as well
+        for (src, _) in g.redirects.iter().filter(|(a, _)| g.resolve(a) == m.specifier() && !slot_keys.contains(*a)).take(2) {
+          let got3 = g.resolve_dependency(text, src, prefer).cloned();
+          report.evaluations += 1;
+          report.count("resolve-dependency:referrer-is-redirect-source");
+          if got3 != got2 {
+            report.fail(
+              "oracle",
+              "resolve-dependency-differs-by-referrer-alias",
+              format!("resolve_dependency({:?}, prefer_types={}) from {} = {:?}; from its redirect source {} = {:?}", text, prefer, m.specifier(), got2, src, got3),
+              json!({"case": case.desc}),
+            );
+          }
+        }
         if got2 != got {
           let shape = if g.redirects.contains_key(m.specifier()) {
             "slot-on-redirect-source" // the referrer itself is resolved through the redirect table
